@@ -170,7 +170,7 @@ def g_bool_const(rnd, g, depth):
 def gen_tp(rnd, idx):
     """constraint-only program over time points (the `tp` type, handled by the real difference logic theory): difference constraints in all
     the accepted shapes, posted in random order, alone or inside disjunctions; mostly built around a planted assignment"""
-    n = rnd.randint(2, 5)
+    n = rnd.randint(2, 5) if rnd.random() < 0.9 else rnd.randint(15, 26)     # sometimes more time points than the initial size of the distance matrix
     tps = ["p%d" % i for i in range(n)]
     nb = rnd.randint(0, 2)
     bools = ["b%d" % i for i in range(nb)]
@@ -225,7 +225,7 @@ def gen_tp(rnd, idx):
         return None
 
     cons = []
-    for _ in range(rnd.randint(2, 9)):
+    for _ in range(rnd.randint(2, 9) if n <= 5 else rnd.randint(n, 2 * n)):
         c = rnd.random()
         if c < 0.7:
             e = atom()
